@@ -70,8 +70,15 @@ let check_resolve (id : int) (kind : string) (specs : spec list) (outs : sx list
   let amb = ambiguous_keys id_choices dis items in
   let maxp = int_of_nat (max_providers items) in
   (* every property failure names the region of the input space it lies in *)
-  let region = if maxp <= 1 then "[unchained]" else if maxp >= 3 then "[three-providers]"
-    else if renames_shapeb items then "[chained:renames-shape]" else "[chained:other-shape]" in
+  let region = match region_of items with
+    | RUnchained -> "[unchained]"
+    | RThree -> "[three-providers]"
+    | RNoRequire -> "[chained:no-provider-requires-entity]"
+    | RShared -> "[chained:item-provides-two-ambiguous-entities]"
+    | RSeveral -> "[chained:unclassified:several-ambiguous-entities]"
+    | RRenames -> "[chained:unclassified:renames-shape]" in
+  count ("region_" ^ (match region_of items with RUnchained -> "unchained" | RThree -> "three" | RNoRequire -> "norequire"
+                      | RShared -> "shared" | RSeveral -> "several" | RRenames -> "renames"));
   let propfail id text = propfail id (region ^ " " ^ text) in
   count "resolve_cases";
   if not in_domain then count "resolve_outside_domain";
@@ -128,7 +135,16 @@ let check_resolve (id : int) (kind : string) (specs : spec list) (outs : sx list
           if maxp <= 1 then begin
             if not (cyclicb items) && not (unsatisfiedb items) then
               propfail id "resolve: 'topological sort failure' although the requirements are acyclic, satisfied and unambiguous"
-          end else count "resolve_err_sort_chained"
+          end else begin
+            count "resolve_err_sort_chained";
+            (* statistic only: a chained 'topological sort failure' although some order passes the validator *)
+            if n_items <= 6 then begin
+              let rec perms = function
+                | [] -> [[]]
+                | l -> List.concat_map (fun x -> List.map (fun p -> x :: p) (perms (List.filter (fun y -> y != x) l))) l in
+              if List.exists (fun o -> order_ok items o) (perms items) then count "resolve_err_sort_chained_valid_order_exists"
+            end
+          end
       | "err", _ -> propfail id ("resolve: unexpected error " ^ so)
       | "panic", _ -> propfail id ("resolve panics instead of returning an order or an error: " ^ so)
       | _ -> failwith ("outcome " ^ so)
